@@ -5,14 +5,14 @@ EXTENDS Verdict, TLC
 Algs == {"rsa1024", "rsa2048", "dsa1024", "p256", "ed25519"}
 Prim(a) == CASE a \in {"rsa1024", "dsa1024"} -> {"AsymmetricKeyLengthIsTooShort"}
              [] a = "p256" -> {"InsecureCurve"} [] OTHER -> {}
-Subjects == {"doc", "selfcert", "thirdparty", "message", "directsig"}   \* directsig: one direct-key self-signature, subject = the key itself
+Subjects == {"doc", "selfcert", "thirdparty", "message", "directsig", "doc-by-subkey"}   \* directsig: one direct-key self-signature, subject = the key itself
 Sigs == UNION {[1..n -> BOOLEAN] : n \in 1..3}
 VARIABLE sc
 Init == sc \in [alg : Algs, expired : BOOLEAN, revoked : BOOLEAN, subj : Subjects, sigs : Sigs]
 Next == UNCHANGED sc
 Spec == Init /\ [][Next]_sc
 KeyIssues(c) == Prim(c.alg) \cup (IF c.expired THEN {"Expired"} ELSE {}) \cup (IF c.revoked THEN {"Revoked"} ELSE {})
-Realisable(c) == /\ (c.subj \in {"doc", "thirdparty", "directsig"} => Len(c.sigs) = 1)     \* one detached signature per call
+Realisable(c) == /\ (c.subj \in {"doc", "thirdparty", "directsig", "doc-by-subkey"} => Len(c.sigs) = 1)     \* one detached signature per call
                  /\ (c.subj = "selfcert" => \A k \in 1..Len(c.sigs) : c.sigs[k])  \* self-signatures are made correctly
 Emit == Realisable(sc) =>
    PrintT(<<"SCN", sc, [k \in 1..Len(sc.sigs) |-> EntryFor(KeyIssues(sc), sc.sigs[k], Fails)]>>)
